@@ -241,6 +241,9 @@ func (e *Engine) canonicalise(st *State, base ObjID, roots []Value) []Value {
 	if st.next <= base {
 		return roots
 	}
+	if st.net != nil || len(st.socks) > 0 {
+		return roots // the socket script and the recorded writes refer to heap objects by id: leave the heap as it is
+	}
 	for _, p := range st.parked {
 		if p.parkNext > base {
 			return roots // a parked goroutine may refer to objects of this frame: leave the heap as it is
